@@ -2,6 +2,7 @@ package hcv
 
 import (
 	"fmt"
+	"go/constant"
 	"go/token"
 	"go/types"
 	"strings"
@@ -707,6 +708,36 @@ func ruleC17_5(c *Ctx) {
 				return ok && name == "encrypt"
 			}) {
 				spelled[k] = true
+			}
+		}
+	})
+	// ... or looked up in a constant table keyed by the parameter's value
+	isEncryptParam := func(v ssa.Value) bool {
+		return c.An.dependsOnCall(v, func(x *ssa.Call) bool {
+			if !callIsMethod(&x.Call, "net/url", "Values", "Get") {
+				return false
+			}
+			_, a := recvAndArgs(&x.Call)
+			name, ok := constStr(a[0])
+			return ok && name == "encrypt"
+		})
+	}
+	instrsOf(dsn, func(in ssa.Instruction) {
+		v, ok := in.(ssa.Value)
+		if !ok {
+			return
+		}
+		cm, lk := constMapLookup(v)
+		if cm == nil || !isEncryptParam(lk.Index) {
+			return
+		}
+		for _, k := range cm.keys {
+			if k.Kind() != constant.String {
+				continue
+			}
+			val := cm.vals[k.ExactString()]
+			if cm.set || (len(val) == 1 && val[0] != nil && val[0].Kind() == constant.Bool && constant.BoolVal(val[0])) {
+				spelled[constant.StringVal(k)] = true
 			}
 		}
 	})
